@@ -582,6 +582,9 @@ func driveStream(b []byte, pid int) {
 // ------------------------------------------------------------------ the CLI binary
 
 func cliBinary() string {
+	if p := os.Getenv("VERIF_C05_CLI"); p != "" {
+		return p
+	}
 	root := os.Getenv("VERIF_ROOT")
 	if root == "" {
 		root = "/verif"
